@@ -4,6 +4,7 @@
 package harness
 
 import (
+	"regexp"
 	"encoding/json"
 	"fmt"
 	"strings"
@@ -198,8 +199,21 @@ func (p *Plan) ConfigJSON(urlsFor func(src string) []string) ([]byte, error) {
 		root.Sources = append(root.Sources, sj)
 	}
 	root.Integrations = p.Decls
-	return json.Marshal(root)
+	b, err := json.Marshal(root)
+	if err == nil && p.Checks["quoted_numbers"] {
+		// numbers as a deployment that fills them in from the environment
+		// writes them: quoted strings, zero-padded
+		b = quotedNumRE.ReplaceAll(b, []byte(`"$1":"0$2"`))
+		b = quotedNumRE2.ReplaceAll(b, []byte(`"$1":"$2"`))
+	}
+	return b, err
 }
+
+// (zero-padded where every digit is below 8: a reader that took the padding for
+// an octal prefix would then read another number instead of failing; plainly
+// quoted otherwise)
+var quotedNumRE = regexp.MustCompile(`"(start|stop|batch_size|concurrency|chain_id)":([0-7]+)\b`)
+var quotedNumRE2 = regexp.MustCompile(`"(start|stop|batch_size|concurrency|chain_id)":([0-9]+)\b`)
 
 // ScriptedFault: at the Ordinal-th event of Seam ("pg" or "http", counted from
 // 0 over the whole run, current generation only) apply Kind.
